@@ -18,7 +18,8 @@ THEOREMS = ['C08.req_subset', 'C08.wanted_bounded', 'C08.echo_needs_label', 'C08
             'C08.sasl_entered_by_ack', 'C08.sasl_after_ack', 'C08.saslAcked_only_by_ack', 'C08.cap_end_once',
             'C08.cap_end_counted', 'C08.cap_end_from_negotiation', 'C08.cap_end_outstanding_witness', 'C08.reset_fresh',
             'C08.epoch_clean', 'C08.epoch_clean_scheduled', 'C08.new_socket_only_by_error', 'C08.feedLines_stops', 'C08.flush_wire',
-            'C08.progress', 'C08.no_stuck_state', 'C08.jR11', 'C08.srvMoveB_sound']
+            'C08.progress', 'C08.no_stuck_state', 'C08.jR11', 'C08.srvMoveB_sound',
+            'C08.cap_end_nothing_outstanding_partial', 'C08.chunks_terminate', 'C08.sasl_answer_complete']
 TRUSTED = ['Lean 4.33.0 kernel; axioms ⊆ {propext, Classical.choice, Quot.sound}',
            'harness/extractors/conn.py (FSM states and guards, expect_state lists, REQUEST_CAPABILITIES, _nickSetters, MAX_LINE_SIZE, AUTHENTICATE_CHUNK_SIZE → Gen/Conn.lean)',
            'harness/c08.py: script generators, stub driver, canonical observation, hex line protocol',
@@ -955,6 +956,11 @@ def gen_adv_line(r, o):
     S = ':' + SERVER + ' '
     k = r.randint(0, 27)
     req = sorted(o.req - o.ack - o.nak) if o is not None else []
+    if o is not None and 'labeled-response' in o.req and r.random() < 0.25:
+        # the echo-message / labeled-response pairing after the server took labeled-response away again
+        if 'labeled-response' in o.ls:
+            return S + 'CAP * DEL :labeled-response'
+        return S + 'CAP * NEW :echo-message' + r.choice(['', ' batch', ' labeled-response'])
     if k <= 2:
         return S + 'CAP * LS :' + caps_string(r)
     if k == 3:
